@@ -1,6 +1,7 @@
 #!/bin/sh
 # seedall.sh [seed ...]: run every seeded change (or the given ones) against the quick check of its property.
-cd /verif
+here=$(cd "$(dirname "$0")/.." && pwd)
+cd $here
 seeds="$@"; [ -z "$seeds" ] && seeds=$(ls seeded)
 for s in $seeds; do
   p=${s%%-*}
